@@ -495,13 +495,25 @@ fn directed(st: &mut Stats) -> Result<(), Fail> {
             st.nontrivial(digest(&inp.to_vec()));
         }
     }
-    // the named roots (and the two unreachable suite positions) are playable and must be accepted
-    for r in ROOTS.iter().chain(UNREACHABLE_SUITE.iter()) {
+    // the named roots are reachable positions and must be accepted; the unreachable suite
+    // positions are playable, but nothing says they must be accepted: only totality and the
+    // playability of whatever is accepted are checked on them
+    for (i, r) in ROOTS.iter().chain(UNREACHABLE_SUITE.iter()).enumerate() {
         let (acc, _) = check_bytes(r.as_bytes()).map_err(|d| Fail { case: json!({"directed_bytes": r.as_bytes().to_vec()}), detail: d })?;
-        if !acc {
-            return Err(Fail { case: json!({"directed_bytes": r.as_bytes().to_vec()}), detail: format!("C06 playable position `{r}` rejected") });
+        if !acc && i < ROOTS.len() {
+            return Err(Fail { case: json!({"directed_bytes": r.as_bytes().to_vec()}), detail: format!("C06 canonical FEN of a reachable position `{r}` rejected") });
         }
         st.eval(1);
+    }
+    // reachable positions at the material limits (nine queens, ten knights, ...) must be accepted
+    for p in material_extremes() {
+        let r = p.fen();
+        let (acc, _) = check_bytes(r.as_bytes()).map_err(|d| Fail { case: json!({"directed_bytes": r.as_bytes().to_vec()}), detail: d })?;
+        if !acc {
+            return Err(Fail { case: json!({"directed_bytes": r.as_bytes().to_vec()}), detail: format!("C06 canonical FEN of a reachable position `{r}` rejected") });
+        }
+        st.eval(1);
+        st.class("directed: reachable material extremes accepted");
     }
     Ok(())
 }
